@@ -348,12 +348,15 @@ def _q2_history_job(kw):
     proj = model.project()
     base = dict(process="NC", fns=kw["fns"], nfff=3, pto=1, tmc=kw["tmc"], ren_sv=False, fact_sv=False, projectile="electron")
     try:
-        _, both = c14.fold_history(proj, base, [(kw["obs"], [5, 0])])  # (1/4, 10) then (1/4, 20)
-        _, alone = c14.fold_history(proj, base, [(kw["obs"], [0])])
+        # (1/4, 10) then (1/4, 30): with matching scales 1, 25, 10^4 the two points differ in the number of active flavours, so their
+        # uncorrected structure functions differ visibly (massless kernels alone do not depend on Q2)
+        p1, p2 = (Fraction(1, 4), 10), (Fraction(1, 4), 30)
+        _, both = c14.fold_history(proj, base, [(kw["obs"], [p1, p2])])
+        _, alone = c14.fold_history(proj, base, [(kw["obs"], [p2])])
     except (A.Undecided, S.Raised) as e:
         return ("fold", f"{type(e).__name__}: {e}"[:200])
-    a = c14.point_snaps(both[0], kw["obs"], [5, 0]).get(0)
-    b = c14.point_snaps(alone[0], kw["obs"], [0]).get(0)
+    a = c14.point_snaps(both[0], kw["obs"], [1, 2]).get(2)
+    b = c14.point_snaps(alone[0], kw["obs"], [2]).get(2)
     return ("cmp", a == b and a is not None)
 
 
@@ -363,13 +366,13 @@ def check_q2_history(rep, proj, tier):
     outs = sweep.run_cells(_q2_history_job, js)
     n = 0
     for kw, o in zip(js, outs):
-        label = f"{kw['obs']}|{kw['fns']}|TMC={kw['tmc']}|x = 1/4 at Q2 = 10, then at Q2 = 20"
+        label = f"{kw['obs']}|{kw['fns']}|TMC={kw['tmc']}|x = 1/4 at Q2 = 10 (nf 4), then at Q2 = 30 (nf 5)"
         if o[0] == "fold":
             rep.undecided("C10.history", "src/yadism/esf/tmc.py", label, o[1])
             continue
         n += 1
-        rep.check(o[1], "C10.history", "src/yadism/esf/tmc.py", label, "the corrected operator at Q2 = 20 is the one obtained when the point is requested alone",
-                  "the corrected operator at Q2 = 20 differs from the one obtained when the point is requested alone: its integrals reuse structure "
+        rep.check(o[1], "C10.history", "src/yadism/esf/tmc.py", label, "the corrected operator at Q2 = 30 is the one obtained when the point is requested alone",
+                  "the corrected operator at Q2 = 30 differs from the one obtained when the point is requested alone: its integrals reuse structure "
                   "functions of the point served before (another Q2)", key=label)
     rep.floor("TMC two-Q2 histories decided", n, 6)
 
